@@ -212,3 +212,41 @@ func (p *Pool) Submit(job Job) func() []Msg {
 }
 
 func (p *Pool) String() string { return fmt.Sprintf("pool(%d workers)", p.N) }
+
+// CallResult of a batch call executed in a worker.
+type CallResult struct {
+	Result  json.RawMessage
+	Crashed bool
+	Stderr  string
+	Err     string
+}
+
+// CallAsync runs a registered batch function in a worker; the returned function waits for the result.
+func (p *Pool) CallAsync(name string, params any) func() CallResult {
+	raw, err := json.Marshal(params)
+	if err != nil {
+		return func() CallResult { return CallResult{Err: err.Error()} }
+	}
+	wait := p.Submit(Job{Mode: "call", Scenario: name, Params: raw})
+	return func() CallResult {
+		var out CallResult
+		for _, m := range wait() {
+			switch m.Type {
+			case "callres":
+				out.Result = m.Result
+			case "crash":
+				out.Crashed = true
+				out.Stderr = m.Err
+			case "error":
+				out.Err = m.Err
+			}
+		}
+		return out
+	}
+}
+
+// CrashSig exposes the crash signature helper.
+func CrashSig(stderr string) string { return crashSig(stderr) }
+
+// TailLines exposes the stderr summariser.
+func TailLines(s string, n int) string { return tailLines(s, n) }
